@@ -339,6 +339,14 @@ func c17Run(cfg c17Cfg) string {
 	var zero int
 	var text string
 	note(sc.ReadComment(&zero, &text)) // computes the writing state on the client's thread while blocks are processed
+	// a request that keeps the core loop busy for several read periods while data keeps arriving (block hand-over has to wait)
+	for i := 0; i < 2; i++ {
+		note(sc.VerifRunLater(func() {
+			time.Sleep(130 * time.Millisecond)
+			sc.VerifReply(nil)
+		}))
+		pause()
+	}
 	// fire-and-forget labels (WaitForError false: the RPC returns at once and the core loop applies the label later),
 	// each followed at once by a burst of requests that compute the writing state on the client's own goroutine
 	nlab := 1
@@ -658,8 +666,11 @@ func c17RaceCase(cfg c17Cfg, idx int) string {
 	summary := "none"
 	if k := strings.Index(so.String(), " OUT "); k >= 0 {
 		summary = strings.TrimSpace(so.String()[k+5:])
-	} else if strings.Contains(text, "panic:") {
-		return "PANIC " + panicClass(text)
+	} else if strings.Contains(text, "panic:") || strings.Contains(text, "fatal error:") {
+		if len(reps) == 0 {
+			return "PANIC " + panicClass(text)
+		}
+		summary = "panicked:" + panicClass(text) // the detector's reports were printed before the crash: they are the verdict
 	}
 	// distinct site pairs, sorted
 	seen := map[string]bool{}
